@@ -28,5 +28,7 @@ def check(run):
     common.gen_structs(run, fams1=("ident", "cert"), fams2=("sig", "offsig", "els"))
     for fam in ("ident", "keycert", "ls2"):   # ls2: the leaseset constructor's own key-size validation
         run.gen("Gen_Build", consts={"Fam": fam}, tag="Gen_Build_" + fam)
+    # derived values follow the fields they are derived from: edits through exported fields after every query has been called once
+    run.gen("Gen_WarmEdit", consts={"Part": "ident"}, tag="Gen_WarmEdit_ident")
     run.replay_and_judge()
     return vlib.finish(run, "model_checking", RULE, ASSUME, extra_cov={"exhaustive_subspaces": ["all 65,536 type codes x every size lookup"]}, exhaustive=True)
